@@ -318,7 +318,7 @@ def impl_call(f, *a, **k):
     """run an implementation call; exceptions become ['err', class name]"""
     try:
         return f(*a, **k)
-    except Exception as e:  # noqa
+    except (Exception, SystemExit) as e:  # noqa  (argparse errors of in-process CLI runs are SystemExit)
         return ImplError(e)
 
 
@@ -451,7 +451,7 @@ def evaluate_cases(mod, descs, budget_s=None):
             break
         try:
             r = mod.run(d)
-        except Exception as e:  # harness-level problem: surfaces as a disagreement, never silently dropped
+        except (Exception, SystemExit) as e:  # harness-level problem: surfaces as a disagreement, never silently dropped
             r = dict(wire=None, impl=None, pred=None, features=["harness-exception"],
                      harness_error="%s: %s\n%s" % (type(e).__name__, e, traceback.format_exc()[-1500:]))
         r["desc"] = d
